@@ -11,7 +11,7 @@
  "variants": {"n0": ["-DV_SCALARS","-DV_N=0"], "n1": ["-DV_SCALARS","-DV_N=1"], "n2": ["-DV_SCALARS","-DV_N=2"], "str1": ["-DV_STR","-DV_N=1"], "str2": ["-DV_STR","-DV_N=2"]},
  "canary_variant": "n2",
  "timeout": 300, "mem_gb": 10, "replay": false,
- "tiers": {"thorough": {"cflags": ["-DMAXS=12"], "unwind": 18, "timeout": 1800, "variants": {"n0": ["-DV_SCALARS","-DV_N=0"], "n1": ["-DV_SCALARS","-DV_N=1"], "n2": ["-DV_SCALARS","-DV_N=2"], "n3": ["-DV_SCALARS","-DV_N=3"], "str1": ["-DV_STR","-DV_N=1"], "str2": ["-DV_STR","-DV_N=2"]}}},
+ "tiers": {"thorough": {"cflags": ["-DMAXS=12"], "unwind": 18, "timeout": 1800, "variants": {"n0": ["-DV_SCALARS","-DV_N=0"], "n1": ["-DV_SCALARS","-DV_N=1"], "n2": ["-DV_SCALARS","-DV_N=2"], "str1": ["-DV_STR","-DV_N=1"], "str2": ["-DV_STR","-DV_N=2"]}}},
  "assumes": ["stdio is a byte-image recorder: printf/fputs/putchar/puts calls of emitdata/dataitem are interpreted by the formats they use ('z N' = N zero bytes, 'b V' = one byte, '<class> V' = one little-endian item of the class size, string items = their elements); QBE lays data items out back to back in that order (QBE IL reference, 'Data')",
              "initialiser list sorted and non-overlapping at bit granularity (INIT.initadd's postcondition), bit-field values already reduced to the field width (parseinit), eval() is the identity on already-folded constants",
              "native replay not available (stdio redirected by macros in the unit)"]
